@@ -218,35 +218,25 @@ class BitStringPayloadDecoder(AbstractSimplePayloadDecoder):
         if LOG:
             LOG('assembling constructed serialization')
 
-        # All inner fragments are of the same type, treat them as octet string
-        substrateFun = self.substrateCollector
-
+        # Inner fragments are BIT STRINGs themselves, primitive or constructed
         bitString = self.protoComponent.fromOctetString(null, internalFormat=True)
 
         current_position = substrate.tell()
 
         while substrate.tell() - current_position < length:
             for component in decodeFun(
-                    substrate, self.protoComponent, substrateFun=substrateFun,
-                    **options):
+                    substrate, self.protoComponent, **options):
                 if isinstance(component, SubstrateUnderrunError):
                     yield component
 
-            if not component:
-                raise error.PyAsn1Error('Empty BIT STRING fragment')
-
-            trailingBits = oct2int(component[0])
-            if trailingBits > 7 or trailingBits and len(component) == 1:
-                raise error.PyAsn1Error(
-                    'Trailing bits overflow %s' % trailingBits
-                )
-
-            bitString = self.protoComponent.fromOctetString(
-                component[1:], internalFormat=True,
-                prepend=bitString, padding=trailingBits
-            )
+            bitString = self._appendFragment(bitString, component)
 
         yield self._createComponent(asn1Spec, tagSet, bitString, **options)
+
+    def _appendFragment(self, bitString, fragment):
+        return univ.SizedInteger(
+            (bitString << len(fragment)) | fragment.asInteger()
+        ).setBitLength(len(bitString) + len(fragment))
 
     def indefLenValueDecoder(self, substrate, asn1Spec,
                              tagSet=None, length=None, state=None,
@@ -261,15 +251,13 @@ class BitStringPayloadDecoder(AbstractSimplePayloadDecoder):
 
             return
 
-        # All inner fragments are of the same type, treat them as octet string
-        substrateFun = self.substrateCollector
-
+        # Inner fragments are BIT STRINGs themselves, primitive or constructed
         bitString = self.protoComponent.fromOctetString(null, internalFormat=True)
 
         while True:  # loop over fragments
 
             for component in decodeFun(
-                    substrate, self.protoComponent, substrateFun=substrateFun,
+                    substrate, self.protoComponent,
                     allowEoo=True, **options):
 
                 if component is eoo.endOfOctets:
@@ -281,19 +269,7 @@ class BitStringPayloadDecoder(AbstractSimplePayloadDecoder):
             if component is eoo.endOfOctets:
                 break
 
-            if not component:
-                raise error.PyAsn1Error('Empty BIT STRING fragment')
-
-            trailingBits = oct2int(component[0])
-            if trailingBits > 7 or trailingBits and len(component) == 1:
-                raise error.PyAsn1Error(
-                    'Trailing bits overflow %s' % trailingBits
-                )
-
-            bitString = self.protoComponent.fromOctetString(
-                component[1:], internalFormat=True,
-                prepend=bitString, padding=trailingBits
-            )
+            bitString = self._appendFragment(bitString, component)
 
         yield self._createComponent(asn1Spec, tagSet, bitString, **options)
 
